@@ -142,6 +142,28 @@ func init() {
 			}
 			return us
 		}})
+	register(&PropCheck{ID: "C02", Level: "model_checking",
+		Rule:        "every stage input and plugin input recorded on every explored schedule is re-derived by evaluating the program's expressions over the outputs the producers had emitted up to that ledger position",
+		Assumptions: commonAssumptions,
+		Budget:      budget(150*time.Second, 25*time.Minute),
+		Units: func(tier string) []*Unit {
+			var us []*Unit
+			for _, s := range runScenarios(tier, true) {
+				us = append(us, scenarioUnit(s, exploreOpts{bound: tierBound(tier, 1, 2), menu: menuTSME, cancelMS: -1}, oracleC02))
+			}
+			return us
+		}})
+	register(&PropCheck{ID: "C04", Level: "model_checking",
+		Rule:        "every plugin execution recorded on every explored schedule must be preceded by its start input, a true enable decision, produced prerequisites and no earlier stop condition; compared with the reference interpreter's may-run set when the meaning is unique",
+		Assumptions: commonAssumptions,
+		Budget:      budget(150*time.Second, 25*time.Minute),
+		Units: func(tier string) []*Unit {
+			var us []*Unit
+			for _, s := range runScenarios(tier, true) {
+				us = append(us, scenarioUnit(s, exploreOpts{bound: tierBound(tier, 1, 2), menu: menuTSME, cancelMS: -1}, oracleC04))
+			}
+			return us
+		}})
 	register(&PropCheck{ID: "C05", Level: "model_checking",
 		Rule:        "deploy/close ledger and live-thread set evaluated at the instant Execute returns, on every explored schedule",
 		Assumptions: commonAssumptions,
@@ -150,6 +172,17 @@ func init() {
 			var us []*Unit
 			for _, s := range runScenarios(tier, true) {
 				us = append(us, scenarioUnit(s, exploreOpts{bound: tierBound(tier, 1, 2), menu: menuTSE, cancelMS: -1}, oracleC05))
+			}
+			return us
+		}})
+	register(&PropCheck{ID: "C08", Level: "model_checking",
+		Rule:        "every stage input, every stage output reported by a step and the returned workflow output, on every explored schedule, is validated against the schema the prepared workflow itself declares for it; 'bug:' errors are violations",
+		Assumptions: commonAssumptions,
+		Budget:      budget(150*time.Second, 25*time.Minute),
+		Units: func(tier string) []*Unit {
+			var us []*Unit
+			for _, s := range runScenarios(tier, true) {
+				us = append(us, scenarioUnit(s, exploreOpts{bound: tierBound(tier, 1, 2), menu: menuTSE, cancelMS: -1}, oracleC08))
 			}
 			return us
 		}})
